@@ -50,6 +50,10 @@ func init() {
 	} {
 		externModels[n] = &externModel{pure: true}
 	}
+	externModels[nazaPrefix+"pkg/nazaerrors.Wrap"] = &externModel{pure: true, apply: func(fr *Frame, args []*Val, argv []ssa.Value, res *Val) {
+		// Wrap(err) is nil iff err is nil
+		fr.ex.q.assume(eq(eq(res.C[0].T, "0"), eq(args[0].C[0].T, "0")))
+	}}
 	nonNilErr := func(fr *Frame, args []*Val, argv []ssa.Value, res *Val) {
 		fr.ex.q.assume(not(eq(res.C[0].T, "0")))
 	}
@@ -131,7 +135,7 @@ func (P *Prog) pureExternal(f *ssa.Function) bool {
 	if m, ok := externModels[f.String()]; ok && m.pure {
 		return true
 	}
-	if f.Pkg != nil && f.Pkg.Pkg.Path() == nazaPrefix+"pkg/nazalog" {
+	if f.Pkg != nil && (f.Pkg.Pkg.Path() == nazaPrefix+"pkg/nazalog" || f.Pkg.Pkg.Path() == nazaPrefix+"pkg/nazaerrors") {
 		return true
 	}
 	if f.Pkg == nil {
@@ -279,6 +283,19 @@ func (fr *Frame) call(in ssa.Instruction, c *ssa.CallCommon, res ssa.Value, pos 
 	}
 	site := fr.locText(pos, "call")
 	callee := c.StaticCallee()
+	if callee == nil && c.IsInvoke() {
+		// devirtualisation: the interface value was made from a known concrete
+		// type in this function (or an inlined caller passed it down)
+		if conc, recv := fr.concreteOf(c.Value); conc != nil {
+			if sel := ex.P.prog.MethodSets.MethodSet(conc).Lookup(c.Method.Pkg(), c.Method.Name()); sel != nil {
+				if fn := ex.P.prog.MethodValue(sel); fn != nil && ex.P.isAnalysed(fn) && len(fn.Params) == len(c.Args)+1 {
+					nc := &ssa.CallCommon{Value: fn, Args: append([]ssa.Value{recv}, c.Args...)}
+					fr.call(in, nc, res, pos)
+					return
+				}
+			}
+		}
+	}
 	if callee != nil {
 		// explicit process-terminating log calls
 		if ex.P.pureExternal(callee) {
@@ -307,8 +324,23 @@ func (fr *Frame) call(in ssa.Instruction, c *ssa.CallCommon, res ssa.Value, pos 
 			}
 		}
 		if fr.shouldInline(callee, sp) {
+			if sp != nil {
+				// the callee's preconditions are obligations of this call site even
+				// though its body is executed in place
+				for _, c := range sp.Requires {
+					cx := &Ctx{fr: fr, ex: ex, st: fr.st, pkg: callee.Pkg.Pkg, vals: map[string]*Val{}, types: map[string]types.Type{}, facts: true, spec: sp, goal: true}
+					for i, p := range callee.Params {
+						cx.vals[p.Name()] = args[i]
+						cx.types[p.Name()] = p.Type()
+					}
+					o := fr.oblige("pre", site+":"+shortFn(callee)+":"+clauseName(c), cx.evalBool(c.Expr), pos)
+					if o != nil {
+						o.Label, o.Mode, o.Slow = c.Label, c.Mode, c.Slow
+					}
+				}
+			}
 			sub := &Frame{ex: ex, fn: callee, spec: nil, vals: map[ssa.Value]*Val{}, depth: fr.depth + 1, parent: fr,
-				prefix: fr.prefix + site + "/" + shortFn(callee) + ":"}
+				prefix: fr.prefix + site + "/" + shortFn(callee) + ":", callArgs: c.Args}
 			for i, p := range callee.Params {
 				sub.vals[p] = args[i]
 			}
@@ -369,6 +401,13 @@ func (fr *Frame) call(in ssa.Instruction, c *ssa.CallCommon, res ssa.Value, pos 
 		}
 		v := ex.freshVal(rl, name)
 		ex.assumeAllocated(rl, v, fr.st.ctr)
+		if c.IsInvoke() && (c.Method.Name() == "Write" || c.Method.Name() == "Read") && len(c.Args) == 1 && len(v.C) == 2 {
+			if _, isSl := c.Args[0].Type().Underlying().(*types.Slice); isSl && intTOf(c.Method.Type().(*types.Signature).Results().At(0).Type()) != nil {
+				// io.Reader / io.Writer contract: 0 <= n <= len(p)
+				ex.q.assume(and(ex.ar.cmp("<=", idxT, ex.idx(0), v.C[0].T), ex.ar.cmp("<=", idxT, v.C[0].T, args[0].C[2].T)))
+				ex.trusted["io.Reader/io.Writer implementations return 0 <= n <= len(p)"] = true
+			}
+		}
 		if callee != nil {
 			if m := externModels[callee.String()]; m != nil && m.apply != nil {
 				m.apply(fr, args, c.Args, v)
@@ -376,6 +415,50 @@ func (fr *Frame) call(in ssa.Instruction, c *ssa.CallCommon, res ssa.Value, pos 
 		}
 		setRes(v)
 	}
+}
+
+// concreteOf: if interface value v is (through ChangeInterface / parameter
+// passing of inlined frames) a MakeInterface of a pointer-like concrete value,
+// the concrete type and the SSA value holding the receiver.
+func (fr *Frame) concreteOf(v ssa.Value) (types.Type, ssa.Value) {
+	for i := 0; i < 8; i++ {
+		switch x := v.(type) {
+		case *ssa.MakeInterface:
+			if l := fr.ex.ls.of(x.X.Type()); l.Kind == LScalar && l.Sort == SAddr {
+				if _, known := fr.vals[x.X]; known || isConstLike(x.X) {
+					return x.X.Type(), x.X
+				}
+				if _, isParam := x.X.(*ssa.Parameter); isParam {
+					return x.X.Type(), x.X
+				}
+			}
+			return nil, nil
+		case *ssa.ChangeInterface:
+			v = x.X
+		case *ssa.Parameter:
+			// inlined frame: follow the argument in the caller
+			if fr.parent == nil || fr.callArgs == nil {
+				return nil, nil
+			}
+			for k, p := range fr.fn.Params {
+				if p == x && k < len(fr.callArgs) {
+					t, rv := fr.parent.concreteOf(fr.callArgs[k])
+					if t == nil {
+						return nil, nil
+					}
+					// make the receiver value visible in this frame
+					if _, has := fr.vals[rv]; !has {
+						fr.vals[rv] = fr.parent.val(rv)
+					}
+					return t, rv
+				}
+			}
+			return nil, nil
+		default:
+			return nil, nil
+		}
+	}
+	return nil, nil
 }
 
 func (fr *Frame) nonNilFuncParam(v ssa.Value) bool {
@@ -625,18 +708,22 @@ func mergeBases(a, b []*HeapBase) []*HeapBase {
 var useLambda = os.Getenv("GOVC_NOLAMBDA") == ""
 
 func (ex *Exec) copyCellsToS8(st *State, dst, src *Val, n string) {
-	// string(b): the new string's bytes equal the slice's current bytes
+	// string(b): the new (fresh, immutable) string's bytes equal the slice's
+	// current bytes. The string heap is versioned like any other heap; the new
+	// version is a pointwise (lambda) definition, so reads stay quantifier-free.
 	ar := ex.ar
-	is := string(ar.idxSort())
-	empty := &State{heaps: map[string]*HeapV{}, events: map[string]string{}}
-	s8 := ex.heap(empty, ex.s8Key())
+	s8 := ex.heap(st, ex.s8Key())
 	p8 := ex.heap(st, ex.pKey("bv8"))
-	z := ex.idx(0)
-	ex.q.assume(fmt.Sprintf("(forall ((j %s)) (! (=> (and %s %s) (= (select %s (elem %s %s)) (select %s (elem %s %s)))) :pattern ((select %s (elem %s %s)))))",
-		is, ar.cmp("<=", idxT, z, "j"), ar.cmp("<", idxT, "j", n),
-		s8.term, dst.C[0].T, ar.add(idxT, dst.C[1].T, "j"), p8.term, src.C[0].T, ar.add(idxT, src.C[1].T, "j"),
-		s8.term, dst.C[0].T, ar.add(idxT, dst.C[1].T, "j")))
-	ex.usesQuant = true
+	dOff := ex.q.def("doff", ar.idxSort(), dst.C[1].T)
+	sOff := ex.q.def("soff", ar.idxSort(), src.C[1].T)
+	nn := ex.q.def("ncp", ar.idxSort(), n)
+	inRange := and("((_ is elem) a)", eq("(ebase a)", dst.C[0].T), ar.cmp("<=", idxT, dOff, "(eidx a)"), ar.cmp("<", idxT, "(eidx a)", ar.add(idxT, dOff, nn)))
+	body := "(ite " + inRange + " (select " + p8.term + " (elem " + src.C[0].T + " " + ar.add(idxT, sOff, ar.sub(idxT, "(eidx a)", dOff)) + ")) (select " + s8.term + " a))"
+	ex.q.n++
+	name := fmt.Sprintf("Hs_S8!%d", ex.q.n)
+	ex.q.lines = append(ex.q.lines, fmt.Sprintf("(define-fun %s () %s (lambda ((a Addr)) %s))", name, arraySort(ex.heapSort(ex.s8Key())), body))
+	st.heaps[ex.s8Key()] = &HeapV{term: name, bases: mergeBases(s8.bases, p8.bases)}
+	ex.usesLambda = true
 }
 
 // copyElems copies n elements of layout el from src to dst.
